@@ -107,19 +107,19 @@ Section Closed.
   Lemma session_inv kn o nilroots roots faults ops s0 sn tr :
     base_fits o -> hdr_ok nilroots roots ->
     forallb (op_okb kn) ops = true -> ops_small ops ->
-    open_new (kind_of kn) o nilroots roots faults = Ok s0 ->
+    fopen kn o nilroots roots faults = Ok s0 ->
     frun hdrdec kn s0 ops = (sn, tr) ->
     FInv kn o nilroots roots sn (acked o nilroots roots ops (map obs_of tr)).
   Proof.
     intros Hfit Hh Hok Hsm Hopen Hrun.
-    destruct (open_new_clean hdrdec kn o nilroots roots Hfit Hh faults s0 Hopen) as (HI0 & _).
+    destruct (fopen_clean hdrdec kn o nilroots roots Hfit Hh faults s0 Hopen) as (HI0 & _).
     exact (run_inv hdrdec kn o nilroots roots Hfit Hh ops s0 [] sn tr HI0 Hok Hsm Hrun).
   Qed.
 
   Theorem no_poison kn o nilroots roots faults pre op s0 sn tr :
     hdr_ok nilroots roots ->
     forallb (op_okb kn) (pre ++ [op]) = true -> ops_small (pre ++ [op]) ->
-    open_new (kind_of kn) o nilroots roots faults = Ok s0 ->
+    fopen kn o nilroots roots faults = Ok s0 ->
     frun hdrdec kn s0 (pre ++ [op]) = (sn, tr) ->
     is_finalize op = true -> snd (last tr (s0, ONil)) = ONil ->
     51 + w_dpad o + w_ipad o
@@ -147,7 +147,7 @@ Section Closed.
   Theorem v1_always_wellformed kn o nilroots roots faults ops s0 sn tr :
     base_fits o -> hdr_ok nilroots roots ->
     forallb (op_okb kn) ops = true -> ops_small ops ->
-    open_new (kind_of kn) o nilroots roots faults = Ok s0 ->
+    fopen kn o nilroots roots faults = Ok s0 ->
     frun hdrdec kn s0 ops = (sn, tr) ->
     w_v1 o = true -> sticky kn sn = false ->
     wf_final (ws_file sn) = Some (roots, acked o nilroots roots ops (map obs_of tr)).
@@ -193,7 +193,7 @@ Section Closed.
   Theorem v1_complete_after_successful_put kn o nilroots roots faults pre op s0 sn tr :
     base_fits o -> hdr_ok nilroots roots ->
     forallb (op_okb kn) (pre ++ [op]) = true -> ops_small (pre ++ [op]) ->
-    open_new (kind_of kn) o nilroots roots faults = Ok s0 ->
+    fopen kn o nilroots roots faults = Ok s0 ->
     frun hdrdec kn s0 (pre ++ [op]) = (sn, tr) ->
     w_v1 o = true -> (exists c d, op = FPut c d) \/ (exists bs, op = FPutMany bs) ->
     snd (last tr (s0, ONil)) = ONil ->
@@ -214,7 +214,7 @@ Section Closed.
   Theorem failed_put_changes_nothing kn o nilroots roots faults ops s0 sn tr c d s' out :
     base_fits o -> hdr_ok nilroots roots ->
     forallb (op_okb kn) ops = true -> ops_small ops -> blk_small (c, d) ->
-    open_new (kind_of kn) o nilroots roots faults = Ok s0 ->
+    fopen kn o nilroots roots faults = Ok s0 ->
     frun hdrdec kn s0 ops = (sn, tr) ->
     fstep hdrdec kn sn (FPut c d) = (s', out) -> is_err out = true ->
     ws_idx s' = ws_idx sn /\ (ws_file s' = ws_file sn \/ sticky kn s' = true).
@@ -277,12 +277,12 @@ Lemma ex_small : ops_small ex_ops.
 Proof. repeat constructor; unfold blk_small; vm_compute; reflexivity. Qed.
 
 Definition ex_run (kn : N) (v1 : bool) (faults : list (option N)) :=
-  match open_new (kind_of kn) (ex_opts v1) false [] faults with
+  match fopen kn (ex_opts v1) false [] faults with
   | Ok s0 => Some (frun dec_header_canon kn s0 ex_ops)
   | Err _ => None
   end.
 Definition ex_run_v0 (kn : N) (v1 : bool) (faults : list (option N)) :=
-  match open_new (kind_of kn) (ex_opts v1) false [] faults with
+  match fopen kn (ex_opts v1) false [] faults with
   | Ok s0 => Some (frun_v0 kn s0 ex_ops)
   | Err _ => None
   end.
@@ -328,7 +328,7 @@ Proof. vm_compute. split; reflexivity. Qed.
 
 (* the theorems applied to the instance: every hypothesis is discharged on it *)
 Example no_poison_applies : forall s0 sn tr,
-  open_new (kind_of 1) (ex_opts false) false [] ex_faults = Ok s0 ->
+  fopen 1 (ex_opts false) false [] ex_faults = Ok s0 ->
   frun dec_header_canon 1 s0 ex_ops = (sn, tr) ->
   wf_final (ws_file sn) = Some ([], [(ex_c2, [x62])]).
 Proof.
@@ -351,7 +351,7 @@ Lemma ex_fits v1 : base_fits (ex_opts v1).
 Proof. vm_compute. reflexivity. Qed.
 
 Example failed_put_applies : forall s0 s' out,
-  open_new (kind_of 0) (ex_opts true) false [] [None; None; None; Some 3] = Ok s0 ->
+  fopen 0 (ex_opts true) false [] [None; None; None; Some 3] = Ok s0 ->
   fstep dec_header_canon 0 s0 (FPut ex_c1 [x61]) = (s', out) ->
   is_err out = true /\ ws_idx s' = ws_idx s0 /\ ws_file s' = ws_file s0.
 Proof.
@@ -369,7 +369,7 @@ Proof.
 Qed.
 
 Example v1_applies : forall s0 sn tr,
-  open_new (kind_of 2) (ex_opts true) false [] [None; None; None; Some 2] = Ok s0 ->
+  fopen 2 (ex_opts true) false [] [None; None; None; Some 2] = Ok s0 ->
   frun dec_header_canon 2 s0 [FPut ex_c1 [x61]; FPut ex_c2 [x62]] = (sn, tr) ->
   wf_final (ws_file sn) = Some ([], [(ex_c2, [x62])]).
 Proof.
@@ -402,6 +402,16 @@ Example truncate_missing_instance :
   match ex_run 2 false [None; None; None; None; Some 3; Some 0] with
   | Some (sn, tr) =>
       map snd tr = [OErr EOther; OErr EOther; OErr EOther] /\ sticky 2 sn = true /\ ws_closed sn = true
+  | None => False
+  end.
+Proof. vm_compute. repeat split; reflexivity. Qed.
+
+(* ... the same target as its own model kind: no Truncate entry is consumed at all *)
+Example notrunc_kind_instance :
+  match ex_run 4 false [None; None; None; None; Some 3] with
+  | Some (sn, tr) =>
+      map snd tr = [OErr EOther; OErr EOther; OErr EOther] /\ sticky 4 sn = true /\ ws_closed sn = true /\
+      d_faults (ws_dev sn) = []
   | None => False
   end.
 Proof. vm_compute. repeat split; reflexivity. Qed.
